@@ -7,4 +7,11 @@ import RaftVerif.Model.Step
 import RaftVerif.Lemmas.Frame
 import RaftVerif.Lemmas.Inv
 import RaftVerif.Lemmas.StepInv
+import RaftVerif.Lemmas.Majority
 import RaftVerif.Props.C05
+import RaftVerif.Props.C06
+import RaftVerif.Props.C08
+import RaftVerif.Props.C11
+import RaftVerif.Props.C16
+import RaftVerif.Props.C17
+import RaftVerif.Props.C18
